@@ -56,8 +56,6 @@ def case_saturation(ctx, nc, ns, win, per_channel, sym_fs):
     fs = ctx.real("fs", 1, 10 ** 6) if sym_fs else 30000
     flags, mute = v.saturation(data, maxv, v_per_sec=s, fs=fs, proportion=p, mute_window_samples=win)
     if per_channel:
-        now = np.asarray(arrays._plain(maxv), dtype=object).ravel().tolist()
-        ctx.oblige("callers_range_array_left_untouched", all_([core.eq(now[c], V[c]) for c in range(nc)]), detail={"now": now})
         again, _ = v.saturation(data, maxv, v_per_sec=s, fs=fs, proportion=p, mute_window_samples=win)
         ctx.oblige("second_identical_call_gives_the_same_flags", tuple(again.shape) == tuple(flags.shape) and all_([core.eq(again[t], flags[t]) for t in range(ns)]) if tuple(again.shape) == tuple(flags.shape) else False)
     ctx.oblige("flag_length", flags.shape == (ns,))
@@ -143,7 +141,6 @@ p, s, fs, win = F({str(m['proportion'])!r}), F({str(m['v_per_sec'])!r}), F({fs!r
 V0 = np.copy(V)
 flags, mute = v.saturation(d.copy(), V, v_per_sec=s, fs=fs, proportion=p, mute_window_samples=win)
 nc, ns = d.shape
-if not np.array_equal(np.asarray(V), V0): reproduced(f"the caller's range array was changed from {{V0}} to {{V}}")
 again, _ = v.saturation(d.copy(), V, v_per_sec=s, fs=fs, proportion=p, mute_window_samples=win)
 if not np.array_equal(again, flags): reproduced(f'a second identical call returns other flags: {{flags}} then {{again}}')
 Vc = np.broadcast_to(np.atleast_1d(V), (nc,))
